@@ -20,6 +20,8 @@ THEOREMS = [
     "B2Z.Sched.pool_complete", "B2Z.Sched.pool_sound", "B2Z.Sched.pool_no_cancel",
     "B2Z.Sched.C14_failure_surfaces", "B2Z.Sched.C14_success_means_all_done", "B2Z.Sched.C14_error_kind",
     "B2Z.Sched.C14_runtime_error_means_death", "B2Z.Sched.C14_body_exception_propagates", "B2Z.Sched.C14_sync_executor",
+    "B2Z.Sched.C14_exit_never_blocks_on_lost_lock", "B2Z.Sched.C14_death_reaches_exit_as_failure", "B2Z.Sched.C14_exit_success_path",
+    "B2Z.Sched.C14_unrepaired_exit_hangs_counterexample",
 ]
 ASSUMPTIONS = [
     "concurrent.futures liveness/soundness: every submitted future appears exactly once in as_completed; ok only if the task returned; a dead worker breaks every unfinished future (hypotheses of the pool model, observed on real pools every run, not proved)",
@@ -34,7 +36,9 @@ LEVEL_TEXT = ("Lean: for every task count, worker count, outcome assignment and 
               "or dying task makes the command end in an error (C14_failure_surfaces), success implies every task ran and "
               "returned (C14_success_means_all_done), the error is RuntimeError only after a death and a task's own exception "
               "otherwise, a body exception propagates, the synchronous executor likewise; wait_on_futures stops after at most n "
-              "events. PARTIAL: liveness of concurrent.futures and absence of OS-level hangs are assumptions, exercised by "
+              "events; whenever a failure is being reported __exit__ performs no step that needs the lock of the shared progress "
+              "counter, so a worker killed while holding it cannot make the command hang (C14_exit_never_blocks_on_lost_lock; "
+              "F13 counterexample for the code before the repair). PARTIAL: liveness of concurrent.futures and absence of OS-level hangs are assumptions, exercised by "
               "real pools under a watchdog. The decision logic is tied exactly to core.wait_on_futures / __exit__ by driving "
               "them with real Future objects in forced orders.")
 LEVEL_NOTE = "Trusted: Lean kernel + standard axioms; concurrent.futures semantics assumed (observed, not proved); time bound observed by watchdog only."
@@ -163,8 +167,45 @@ def watchdog(seconds):
     signal.alarm(seconds)
 
 
-def pool_case(ctx, outcomes, workers, work, rng, delays=None):
-    """real ProcessPoolExecutor through ParallelWorkManager"""
+def exit_steps_case(ctx):
+    """which shutdown steps __exit__ performs in the three situations, against Model.Sched.exitSteps"""
+    from bio2zarr import core
+    for body_raised, wait_raises in ((False, False), (True, False), (False, True)):
+        pwm = core.ParallelWorkManager(0)
+        with pwm.completed_lock:
+            pwm.completed = True
+        pwm.progress_thread.join()
+        calls = []
+
+        class Rec:
+            def join(self, *a, **k):
+                calls.append("join")
+        pwm.progress_thread = Rec()
+        pwm._update_progress = lambda: calls.append("read")
+        pwm.progress_bar.close = lambda: calls.append("close")
+        pwm.completed = False
+        pwm.futures = {make_future(7)} if wait_raises else {make_future("ok")}
+        try:
+            if body_raised:
+                pwm.__exit__(KeyError, KeyError(1), None)
+            else:
+                pwm.__exit__(None, None, None)
+        except BaseException:  # noqa: BLE001
+            pass
+        real = {"joins_progress": "join" in calls, "reads_progress": "read" in calls, "closes_bar": "close" in calls,
+                "sets_completed": bool(pwm.completed)}
+        inp = {"body_raised": body_raised, "wait_raises": wait_raises}
+        ctx.case(("exit_steps", body_raised, wait_raises), True)
+        ctx.count("exit_steps")
+        if ctx.driver_ok:
+            m = ctx.driver.ask({"op": "sched.exit_steps", "body_raised": int(body_raised), "wait_raises": int(wait_raises)})
+            if m != real:
+                ctx.disagree("shutdown steps of ParallelWorkManager.__exit__ differ from Model.Sched.exitSteps", inp, m, real)
+
+
+def pool_case(ctx, outcomes, workers, work, rng, delays=None, consume_in_body=False):
+    """real ProcessPoolExecutor through ParallelWorkManager; `consume_in_body`: the with-body iterates
+    results_as_completed (the scan pattern), so a failure is raised inside the body"""
     from bio2zarr import core
     import c14_tasks
     marker = pathlib.Path(work) / "markers"
@@ -176,16 +217,18 @@ def pool_case(ctx, outcomes, workers, work, rng, delays=None):
     try:
         with core.ParallelWorkManager(workers) as pwm:
             for i, o in enumerate(outcomes):
-                kind = o if o in ("ok", "die", "sysexit", "kbint") else "raise"
+                kind = o if o in ("ok", "die", "dielock", "sysexit", "kbint") else "raise"
                 pwm.submit(c14_tasks.task, kind, o if kind == "raise" else i, str(marker),
                            delays[i] if delays else rng.choice([0, 0.01, 0.05]))
+            if consume_in_body:
+                list(pwm.results_as_completed())
     except BaseException as e:  # noqa: BLE001
         exc = e
     finally:
         signal.alarm(0)
     elapsed = time.time() - t0
     got = verdict_of(exc)
-    inp = {"outcomes": outcomes, "workers": workers}
+    inp = {"outcomes": outcomes, "workers": workers, "results_consumed_in_body": consume_in_body}
     bad = any(o != "ok" for o in outcomes)
     ctx.case(("pool", tuple(outcomes), workers), bad)
     ctx.count(f"pool_w{workers}_{'bad' if bad else 'ok'}")
@@ -197,9 +240,11 @@ def pool_case(ctx, outcomes, workers, work, rng, delays=None):
         except Exception:  # noqa: BLE001
             pass
         return
-    raised = {BASE_CODES.get(o, o) for o in outcomes if o not in ("ok", "die")}
-    died = "die" in outcomes
-    allowed = set(raised) | ({"RuntimeError"} if died else set()) if bad else {"ok"}
+    raised = {BASE_CODES.get(o, o) for o in outcomes if o not in ("ok", "die", "dielock")}
+    died = "die" in outcomes or "dielock" in outcomes
+    allowed = set(raised) | ({"RuntimeError", "other:BrokenProcessPool"} if died else set()) if bad else {"ok"}
+    if died and not consume_in_body:
+        allowed.discard("other:BrokenProcessPool")      # the exit path turns a dead worker into RuntimeError
     if workers == 0:
         # synchronous executor: first failing task in submission order (die would kill us: not generated)
         first = next((o for o in outcomes if o != "ok"), None)
@@ -216,7 +261,8 @@ def pool_case(ctx, outcomes, workers, work, rng, delays=None):
         seen = set()
         for _ in range(12):
             sched = [rng.randrange(8) for _ in outcomes]
-            r = ctx.driver.ask({"op": "sched.command", "outcomes": [BASE_CODES.get(o, o) for o in outcomes], "w": workers, "sched": sched})
+            r = ctx.driver.ask({"op": "sched.command", "outcomes": [BASE_CODES.get(o, "die" if o == "dielock" else o) for o in outcomes],
+                                "w": workers, "sched": sched})
             seen.add(r["verdict"])
         if bad and "ok" in seen:
             ctx.disagree("model reports ok for a failing outcome list", inp, sorted(map(str, seen)), got)
@@ -239,8 +285,8 @@ def pipeline_cases(ctx, work, rng):
         codes, pos, alleles, samples = c16.gen_fileset(rng)
     c16.write_fileset(pathlib.Path(work) / "fs", codes, rng, pos, alleles, samples)
     jobs = []
-    for what, src in (("explode", str(vcf)), ("encode", str(icf)), ("plink", str(pathlib.Path(work) / "fs.bed"))):
-        for mode in ("raise", "die"):
+    for what, src in (("explode", str(vcf)), ("scan", str(vcf)), ("encode", str(icf)), ("plink", str(pathlib.Path(work) / "fs.bed"))):
+        for mode in ("raise", "die", "die_locked"):
             workers = rng.choice([1, 2])
             if what == "plink":
                 import types
@@ -263,10 +309,11 @@ def pipeline_cases(ctx, work, rng):
         ctx.case(("pipeline", what, mode, idx, workers), True)
         ctx.count(f"pipeline_{what}_{mode}")
         try:
-            p = subprocess.run([sys.executable, str(common.ROOT / "harness" / "c14_pipeline.py"), what, str(workers), src, str(out)],
-                               env=env, capture_output=True, text=True, timeout=120)
+            p = subprocess.run([sys.executable, str(common.ROOT / "harness" / "c14_pipeline.py"), "explode" if what == "scan" else what,
+                                str(workers), src, str(out)],
+                               env=env, capture_output=True, text=True, timeout=60)
         except subprocess.TimeoutExpired:
-            ctx.violate(f"{what} with a worker that {mode}s in task {idx}: command hung (> 120 s)", inp, "error", "hang")
+            ctx.violate(f"{what} with a worker that {mode}s in task {idx}: command hung (> 60 s)", inp, "error", "hang")
             continue
         line = next((l for l in p.stdout.splitlines() if l.startswith("RESULT ")), None)
         if line is None:
@@ -276,7 +323,7 @@ def pipeline_cases(ctx, work, rng):
             ctx.violate(f"{what}: task {idx} {mode}s inside the worker but the command reported success", inp, "error", res)
         elif res["finished_marker"]:
             ctx.violate(f"{what}: command raised {res['raised']} but left a finished-looking output", inp, "no completion marker", res)
-        elif mode == "die" and res["raised"] != "RuntimeError":
+        elif mode in ("die", "die_locked") and res["raised"] not in (("RuntimeError",) if what != "scan" else ("RuntimeError", "BrokenProcessPool")):
             ctx.violate(f"{what}: dead worker surfaced as {res['raised']}, not RuntimeError", inp, "RuntimeError", res)
         ctx.sample({**inp, **res}, limit=6)
         shutil.rmtree(out, ignore_errors=True)
@@ -324,6 +371,17 @@ def run(ctx):
             pool_case(ctx, o, w, work, rng, delays=d)
             o2 = ["ok", "die", 6] + ["ok"] * (n - 3)
             pool_case(ctx, o2, w, work, rng, delays=[0.3, 0.1, 0.0] + [0.5] * (n - 3))
+        # a worker killed while it holds the lock of the shared progress counter (inside update_progress): both through
+        # the exit path and with the results consumed inside the body (scan pattern)
+        for w in ((1, 2, 4) if ctx.thorough else (2,)):
+            for body in (False, True):
+                for pos in ((0, 2, 5) if ctx.thorough else (1,)):
+                    o = ["ok"] * 6
+                    o[pos] = "dielock"
+                    pool_case(ctx, o, w, work, rng, consume_in_body=body)
+        pool_case(ctx, ["ok", 4, "ok", "ok"], 2, work, rng, consume_in_body=True)
+        pool_case(ctx, ["ok"] * 5, 2, work, rng, consume_in_body=True)
+        exit_steps_case(ctx)
         pipeline_cases(ctx, work, rng)
         ctx.traces = ctx.evaluations
     finally:
